@@ -57,6 +57,7 @@ func c19Bindings(n int) []xsel.ContextApply {
 			return xsel.String(strings.ToUpper(a[0].String())), nil
 		}),
 		xsel.WithVariable("s", xsel.String("sv")),
+		xsel.WithNS("p", "urn:y"),
 		xsel.WithFunction("concat", func(xsel.Context, ...xsel.Result) (xsel.Result, error) { return xsel.String("shadowed"), nil }),
 	}
 	if n > len(all) {
@@ -400,10 +401,10 @@ var intTags = []string{"count(*)", "count(node())", "string-length()", "7", "2.7
 var signedTags = []string{"-3", "0 - count(*)", "-2.7"}
 var strTags = []string{"name()", ".", "@id", "normalize-space()", "concat(name(), '-', @id)", "a", "'lit'", "string(*[1])", "..", "text()",
 	// tags that use the bindings given to Unmarshal (an error without them)
-	"$s", "probe()", "u:up(name())", "concat($s, '-', $n)", "u:up()", "string($n + count(*))"}
+	"$s", "probe()", "u:up(name())", "concat($s, '-', $n)", "u:up()", "string($n + count(*))", "name(p:*)", "p:a", "string(count(.//p:*))", "@p:id", "name(*)", "*"}
 var boolTags = []string{"a", "@id", "true()", "false()", "count(*) > 1", "not(*)", "'x'", "0", "'0'", "''", "number('x')", "string(@n)", "' '", "0 div 0", "-0", "'false'", "0.0", "string(nosuch)"}
 var floatTags = []string{"1.5", "count(*) div 2", "number(@id)", "@n", "-0.25", "1 div 0"}
-var nodeTags = []string{"*", "a", "b", ".", "*[1]", "..", "a | b", "*/*", "nosuch", "@*", "text()", "ancestor-or-self::*"}
+var nodeTags = []string{"*", "a", "b", ".", "*[1]", "..", "a | b", "*/*", "nosuch", "@*", "text()", "ancestor-or-self::*", "p:*", "p:a", "*:a", "@id", "@p:*"}
 
 func pick(t *rapid.T, label string, pool []string) string {
 	return pool[rapid.IntRange(0, len(pool)-1).Draw(t, label)]
@@ -506,7 +507,9 @@ func shapeOf(d *tdesc) (s string, interesting bool) {
 }
 
 func c19Doc() xmodel.GenCfg {
-	return xmodel.GenCfg{MaxDepth: 4, MaxKids: 4, NoNS: true, Names: []string{"a", "b", "a", "c"}, Values: []string{"1", "2", "3", "12", "x", " y ", "2.5", ""}}
+	// the document declares p and q itself (for urn:x / urn:y in either assignment): tags resolve prefixes through
+	// the bindings given to Unmarshal only, and an unprefixed name in a tag means "no namespace"
+	return xmodel.GenCfg{MaxDepth: 4, MaxKids: 4, Names: []string{"a", "b", "a", "c"}, Values: []string{"1", "2", "3", "12", "x", " y ", "2.5", ""}}
 }
 
 // numeric attributes n on elements keep integer tags in range
@@ -726,7 +729,7 @@ func TestC19(t *testing.T) {
 		}
 		c.Prepopulate = rapid.IntRange(0, 3).Draw(t, "prepopulate") == 0
 		c.Prefill = rapid.IntRange(0, 2).Draw(t, "prefill") == 0
-		c.Bind = []int{0, 0, 1, 2, 4, 6, 6, 6}[rapid.IntRange(0, 7).Draw(t, "bind")]
+		c.Bind = []int{0, 0, 1, 2, 4, 7, 7, 7}[rapid.IntRange(0, 7).Draw(t, "bind")]
 		st.Class(fmt.Sprintf("bindings=%d", c.Bind))
 		shape, interesting := shapeOf(c.Target)
 		st.Class("target=" + c.Target.Kind)
